@@ -185,3 +185,70 @@ impl From<String> for Blob {
         Blob(v.into_bytes())
     }
 }
+
+/// Like `strip_ansi`, but also returns for every kept byte the offset just after it in the raw
+/// data (so that "is this text visible in the first n raw bytes" can be answered for every n).
+pub fn strip_ansi_with_offsets(data: &[u8]) -> (Vec<u8>, Vec<usize>) {
+    let mut out = Vec::with_capacity(data.len());
+    let mut offs = Vec::with_capacity(data.len());
+    let mut i = 0;
+    while i < data.len() {
+        let b = data[i];
+        if b == 0x1b {
+            if i + 1 >= data.len() {
+                break;
+            }
+            match data[i + 1] {
+                b'[' => {
+                    i += 2;
+                    while i < data.len() && !(0x40..=0x7e).contains(&data[i]) {
+                        i += 1;
+                    }
+                    i += 1;
+                }
+                b']' => {
+                    i += 2;
+                    while i < data.len() {
+                        if data[i] == 0x07 {
+                            i += 1;
+                            break;
+                        }
+                        if data[i] == 0x1b && i + 1 < data.len() && data[i + 1] == b'\\' {
+                            i += 2;
+                            break;
+                        }
+                        i += 1;
+                    }
+                }
+                _ => i += 2,
+            }
+        } else {
+            out.push(b);
+            i += 1;
+            offs.push(i);
+        }
+    }
+    (out, offs)
+}
+
+/// For every token `T%06d` in the raw output: the raw offset at which its first occurrence is
+/// complete.
+pub fn token_visibility(raw: &[u8]) -> std::collections::HashMap<u32, usize> {
+    let (st, offs) = strip_ansi_with_offsets(raw);
+    let mut m = std::collections::HashMap::new();
+    let n = st.len();
+    let mut i = 0;
+    while i + 7 <= n {
+        if st[i] == b'T' && st[i + 1..i + 7].iter().all(|c| c.is_ascii_digit()) {
+            let mut v = 0u32;
+            for c in &st[i + 1..i + 7] {
+                v = v * 10 + (*c - b'0') as u32;
+            }
+            m.entry(v).or_insert(offs[i + 6]);
+            i += 7;
+        } else {
+            i += 1;
+        }
+    }
+    m
+}
